@@ -289,6 +289,7 @@ func poolScenario(bound int) *explore.Scenario {
 					s := (*b)[:0]
 					pbytes.Put(&s)
 					bb := pbuffer.Get(64)
+					vsched.ObjW(bb, "bytes.Buffer object|pool user (harness)|harness").WriteString("owner's data")
 					pbuffer.Put(bb)
 				}
 			}
